@@ -12,6 +12,11 @@ CHECKS = {
          "Thousands of short concurrent histories on the real TTLCache/LRUCache in the race build; every history is checked by an eviction-order monitor (callback never before a holder's release call, exactly one callback per value that entered the cache) and by porcupine against a sequential cache model. Holds on the histories executed, nothing more.",
          "Trusted: porcupine v1.3.0, the two 30-line sequential models in harness/cmd/c10, CLOCK_MONOTONIC consistency across CPUs, the Go race detector. Timer-driven expiry is exercised through the verif-tagged VerifFireExpiry shim, which runs exactly the timer callback body.",
          "DESIGN.md section 5 C10"),
+ "C13": ("exploration",
+         "online trace monitor over build-tagged hook events + state-based quiescence check + Go race detector",
+         "Thousands of generated scenarios on the real BackgroundTaskManager (concurrency 1-4, silence 0-30 ms, up to 16 invokers and 8 prioritized clients, bodies that react to cancellation immediately/late/at the end) in the race build. A monitor fed by hook points inside the manager's own critical sections decides: no start while prioritized work is in progress, silence period respected (one-sided-safe stamps), concurrency bound, no self-overlap, nothing running at return, cancellation delivered, completion at quiescence (decided on goroutine state, not on time). Holds on the executions observed.",
+         "Trusted: the hook points task.pbegin/pend/start/cancel are placed as DESIGN.md section 5 C13 argues (pend before the decrement => monitor count <= real count); runtime.Stack snapshots for the quiescence decision; CLOCK_MONOTONIC; the Go race detector.",
+         "DESIGN.md section 5 C13"),
 }
 
 PENDING_REASON = "check not built yet in this session (work in progress; DESIGN.md section 5 describes the planned runtime monitor)"
